@@ -1586,6 +1586,9 @@ def _rolling_shift_or_diff_1d(
             if group_counts[key] >= window:
                 if want_shift:
                     out[i] = group_buffers[key, pos]
+                elif is_null(val) or is_null(group_buffers[key, pos]):
+                    # NaT is an integer sentinel, it must not be subtracted
+                    out[i] = null_value
                 else:
                     out[i] = val - group_buffers[key, pos]
             else:
